@@ -599,7 +599,7 @@ func TestC16(t *testing.T) {
 	out.Stats.Extra["distinct_payloads_effective_under_governance"] = effCount
 	out.Stats.Extra["payload_variants_tried"] = tried
 
-	n := hx.N(24, 400)
+	n := hx.N(24, 200)
 	for it := 0; it < n; it++ {
 		out.Reset()
 		envLines()
